@@ -24,11 +24,15 @@ def ext_nodes(spec):
     return out
 
 
-def new_tag(node, mod):
+def new_tag(node, mod, draw=None):
     ms = node.all_members()
     if mod.tagdefault == 'AUTOMATIC' and not any(x.ty.tag is not None for x in ms):
         return None
     used = [x.ty.tag.num for x in ms if x.ty.tag is not None and x.ty.tag.cls == 'CONTEXT']
+    free = [n for n in range(0, 64) if n not in used]
+    if draw is not None and free:
+        # any unused number: a newer addition may well carry a lower tag than an older one
+        return Tag('CONTEXT', free[draw(st.integers(0, len(free) - 1))])
     return Tag('CONTEXT', max(used + [39]) + 1)
 
 
@@ -47,7 +51,10 @@ def evolve(draw, spec1, prof):
         nodes = ext_nodes(spec2)
         if not nodes:
             break
-        kind, mod, tname, node = nodes[draw(st.integers(0, len(nodes) - 1))]
+        # prefer nodes that already have additions: the relative position of old and new ones matters
+        rich = [x for x in nodes if x[0] == 'members' and x[3].ext]
+        pool = rich if (rich and draw(st.integers(0, 99)) < 50) else nodes
+        kind, mod, tname, node = pool[draw(st.integers(0, len(pool) - 1))]
         if kind == 'members':
             if node.ext is None:
                 node.ext = []       # write the implied marker explicitly
@@ -81,11 +88,11 @@ def evolve(draw, spec1, prof):
                 m_.ty.tag = None
             spec2.link()
             for m_ in members:
-                tg = new_tag(node, mod)
+                tg = new_tag(node, mod, draw)
                 if tg is not None:
                     m_.ty.tag = tg
                 elif mod.tagdefault != 'AUTOMATIC':
-                    m_.ty.tag = Tag('CONTEXT', 40)
+                    m_.ty.tag = Tag('CONTEXT', 40 + counter[0])
                 spec2.link()
         elif kind == 'enum':
             counter[0] += 1
